@@ -20,15 +20,21 @@ func Run(r *mc.Run) {
 	forced.MaxRewardsPeriod = 1
 	freq3 := chainx.DefaultCfg
 	freq3.StakingTrieFrequency, freq3.MaxRewardsPeriod, freq3.WithdrawDelay = 3, 1000, 3
+	// a rewards pool that holds 2.5 (3.5) block subsidies: the histories cross the block that drains it
+	// (0 < pool < wanted subsidy) and go on with an empty pool
+	dry, dry2 := noForced, noForced
+	dry.PoolTenths, dry2.PoolTenths = 187, 262
 	if r.Quick() {
-		r.SetBudget(170e9)
+		r.SetBudget(400e9)
 		chainx.Explore(r, hooks, []chainx.ParamCfg{noForced}, chainx.MenuCore, 4, 3)
 		chainx.Explore(r, hooks, []chainx.ParamCfg{forced}, chainx.MenuCore, 3, 2)
+		chainx.Explore(r, hooks, []chainx.ParamCfg{dry}, chainx.MenuCore, 4, 2)
 	} else {
 		r.SetBudget(45 * 60e9)
 		menu := append(append([]string{}, chainx.MenuCore...), chainx.MenuMore...)
 		chainx.Explore(r, hooks, []chainx.ParamCfg{noForced, freq3}, menu, 4, 4)
 		chainx.Explore(r, hooks, []chainx.ParamCfg{forced}, chainx.MenuCore, 5, 4)
+		chainx.Explore(r, hooks, []chainx.ParamCfg{dry, dry2}, chainx.MenuCore, 5, 3)
 	}
 	r.Assume("driver: coinbase is always an existing online chamber validator; the last online chamber validator is never taken offline")
 }
